@@ -5,3 +5,20 @@ mod persister_task;
 pub use log_reader::SegmentLogReader;
 pub use log_writer::SegmentLogWriter;
 pub use persister_task::PersisterTask;
+
+use std::io::IoSlice;
+use tokio::{fs::File, io::AsyncWriteExt};
+
+/// Writes all the buffers to the file. A single vectored write may take only a part of the data
+/// (the file buffers a limited number of bytes per write), so it is repeated until nothing is left.
+async fn write_all_vectored(file: &mut File, mut bufs: &mut [IoSlice<'_>]) -> std::io::Result<()> {
+    IoSlice::advance_slices(&mut bufs, 0);
+    while !bufs.is_empty() {
+        let written = file.write_vectored(bufs).await?;
+        if written == 0 {
+            return Err(std::io::ErrorKind::WriteZero.into());
+        }
+        IoSlice::advance_slices(&mut bufs, written);
+    }
+    Ok(())
+}
